@@ -74,7 +74,7 @@ Print Assumptions C02_full_log_failures_reported.
 Definition ex_chain : list fcert :=
   [mk_fcert 5 "CN=leaf,O=Verif,ST=WA,C=US" (-1000) 1000; mk_fcert 7 "CN=root,O=Verif,ST=WA,C=US" (-5000) 5000].
 Definition ex_tok : C06_Model.token :=
-  C06_Model.mk_token false false false false 0 0 false false C06_Model.VErr.
+  C06_Model.mk_token false false false false 0 0 false false 0 C06_Model.VErr.
 Definition ex_good (l : level) : full_input :=
   mk_full l false true ex_chain ["ca:s"] ["x509.subject: C=US, ST=WA, O=Verif"]
           [(("ca", "s"), C03_Model.Certs [7%N])] (C05_Model.VRes [C05_Model.ROK; C05_Model.RNonRevokable])
